@@ -11,6 +11,7 @@ import (
 	"encoding/json"
 	"fmt"
 	"math/big"
+	"math/rand"
 	"sort"
 
 	"github.com/ethereum/go-ethereum/common"
@@ -229,20 +230,37 @@ func (u *Universe) Concretise(tx Tx) []byte {
 
 func (u *Universe) concretise(tx Tx) []byte {
 	if tx.K == "garbage" {
-		switch (u.Seed + int64(tx.N)) % 4 {
+		good := u.sign(u.C.Addrs[0], &shmsg.MessageWithNonce{ChainId: []byte(ChainID), Msg: shmsg.NewBlockSeen(1)})
+		raw, _ := base64.RawURLEncoding.DecodeString(string(good))
+		enc := func(b []byte) []byte { return []byte(base64.RawURLEncoding.EncodeToString(b)) }
+		rng := rand.New(rand.NewSource(u.Seed*131 + int64(tx.Gm)))
+		switch tx.Gm % 10 {
 		case 0:
 			return []byte("!!! not base64 !!!")
 		case 1:
-			return []byte(base64.RawURLEncoding.EncodeToString([]byte("short")))
+			return enc([]byte("short"))
 		case 2:
 			sig := make([]byte, 65)
 			sig[64] = 9 // invalid recovery id
-			return []byte(base64.RawURLEncoding.EncodeToString(append(sig, 1, 2, 3)))
+			return enc(append(sig, 1, 2, 3))
+		case 3:
+			return enc(append(raw[:65:65], 0xff, 0xff, 0xff, 0x07)) // signature over an undecodable protobuf body
+		case 4:
+			return []byte{} // empty transaction
+		case 5:
+			return enc(make([]byte, 65+rng.Intn(40))) // all-zero signature (r = s = 0)
+		case 6:
+			return enc(raw[:rng.Intn(65)]) // truncated inside the signature
+		case 7:
+			return []byte(string(good) + "==") // padded base64 is not RawURLEncoding
+		case 8:
+			b := make([]byte, 1+rng.Intn(300)) // random bytes, not base64 with high probability
+			rng.Read(b)
+			b[0] = 0x80
+			return b
 		default:
-			good := u.sign(u.C.Addrs[0], &shmsg.MessageWithNonce{ChainId: []byte(ChainID), Msg: shmsg.NewBlockSeen(1)})
-			raw, _ := base64.RawURLEncoding.DecodeString(string(good))
-			raw = append(raw[:65:65], 0xff, 0xff, 0xff, 0x07) // signature over an undecodable protobuf body
-			return []byte(base64.RawURLEncoding.EncodeToString(raw))
+			// valid signature over a body whose length-delimited field claims more bytes than there are
+			return enc(append(raw[:65:65], 0x0a, 0xff, 0xff, 0xff, 0xff, 0x0f, 1, 2))
 		}
 	}
 	chain := ChainID
